@@ -1,11 +1,11 @@
 """C06 - tract parsing is compositional: lots, divisions, acreages and aliquots."""
 from hypothesis import strategies as st
 
-from vlib.core import Sub, Failure
+from vlib.core import Sub, Failure, note_excluded
 from vlib import env, lists as L, aliquot as aq
 
 pytrs = env.import_pytrs()
-from pytrs import Tract  # noqa: E402
+from pytrs import Tract, PLSSDesc  # noqa: E402
 
 ID = "C06"
 RULE = (
@@ -250,6 +250,19 @@ def oracle(c):
         for k, v in got_acres.items():
             if v not in want_acres[k]:
                 fails.append(Failure("acres_value", f"{text!r}: lot_acres[{k}] = {v!r}, stated {want_acres[k]}", **ctx))
+    # the same description as the tract of a PLSSDesc gives what the stand-alone Tract gives
+    for tmpl in ("T154N-R97W Sec 14: {}", "Sec 14: {}, T154N-R97W"):
+        d = PLSSDesc(tmpl.format(text), config=cfg, parse_qq=True)
+        if len(d.tracts) != 1 or d.tracts[0].trs != "154n97w14":
+            note_excluded("description_not_one_tract_in_plssdesc")
+            continue
+        pt = d.tracts[0]
+        got = (list(pt.lots), list(pt.qqs), dict(pt.lot_acres))
+        want = (list(t.lots), list(t.qqs), dict(t.lot_acres))
+        if got != want:
+            fails.append(Failure("via_plssdesc", f"PLSSDesc({tmpl.format(text)!r}, {cfg!r}): tract has lots/qqs/lot_acres {got}, the stand-alone Tract({text!r}) has {want}",
+                                 tract_desc=pt.desc, **ctx))
+            break
     # duplicate warnings exactly when warranted
     got_dl = any(f.startswith("dup_lot<") for f in t.w_flags)
     got_dq = any(f.startswith("dup_qq<") for f in t.w_flags)
